@@ -39,6 +39,8 @@ pub struct Monitors {
     /// termination time (ms on the harness clock) of every worker with a time limit
     pub worker_term: BTreeMap<u32, u64>,
     pub now_ms: u64,
+    /// terminal tasks already reported as unannounced
+    unannounced: BTreeSet<TaskId>,
     /// tasks for which the server announced a successful finish (kept after their job was forgotten)
     finished_evt: BTreeSet<TaskId>,
     /// tasks that existed in a job at the moment its number of failed tasks exceeded max_fails (C14); tasks
@@ -163,6 +165,61 @@ impl Monitors {
             self.fail("c08.cancel_final", "report-after-cancel", format!("task {} reported {kind} after the cancel was answered", tid(t)));
         }
         self.running_on.remove(&t);
+    }
+
+    /// C07 / C13 in the job layer: right after the `on_worker_lost` callback every task of its running list is waiting
+    /// again in the job layer (it is not running anywhere) — whatever the reason of the loss and however many tasks of
+    /// the job have failed before
+    pub fn worker_lost_jobs(&mut self, worker: u32, running: &[TaskId], jobs: &[JobSnap]) {
+        for t in running {
+            let st = jobs
+                .iter()
+                .find(|j| j.id == t.job_id().as_num())
+                .and_then(|j| j.tasks.iter().find(|(k, _)| *k == t.job_task_id().as_num()))
+                .map(|(_, s)| *s);
+            if st == Some('R') {
+                let d = format!("worker {worker} was lost while the server reported task {} running there; right after the callback the job layer still shows it running", tid(*t));
+                self.fail("c07.loss", "lost-task-still-running-in-job-layer", d.clone());
+                self.fail("c13.counters", "stale-running-after-worker-loss", d);
+            }
+        }
+    }
+
+    /// C01: every task the job layer shows with an outcome had that outcome announced (exactly once: `outcome_kind`)
+    pub fn announced(&mut self, jobs: &[JobSnap]) {
+        for j in jobs {
+            for (t, s) in &j.tasks {
+                if matches!(*s, 'F' | 'X' | 'C' | 'A') {
+                    let id = TaskId::new(tako::JobId::new(j.id), tako::JobTaskId::new(*t));
+                    if !self.terminal.contains(&id) && self.unannounced.insert(id) {
+                        self.fail("c01.outcome_once", "outcome-not-announced", format!("task {} is {} in the job layer but no event announced that outcome", tid(id), match *s { 'F' => "finished", 'X' => "failed", 'C' => "canceled", _ => "aborted" }));
+                    }
+                }
+            }
+        }
+    }
+
+    /// C08: after the cancel of a job was answered no task of it is left waiting or running in the job layer
+    pub fn cancel_leaves_nothing(&mut self, job: u32, jobs: &[JobSnap]) {
+        if let Some(j) = jobs.iter().find(|j| j.id == job) {
+            let left: Vec<u32> = j.tasks.iter().filter(|(_, s)| *s == 'W' || *s == 'R').map(|(t, _)| *t).collect();
+            if !left.is_empty() {
+                self.fail("c08.cancel_final", "tasks-left-after-cancel", format!("the cancel of job {job} was answered but its tasks {:?} are still waiting / running", left));
+            }
+        }
+    }
+
+    /// C14 "none of them ... keeps running": every execution in progress of a task aborted because the job exceeded
+    /// max_fails has been told to stop (a CancelTasks naming it is on its way to, or was processed by, that worker)
+    pub fn abort_stops(&mut self, aborted: &[TaskId], executing: &[(u32, TaskId)], pending: &[(u32, Vec<TaskId>)]) {
+        for (w, t) in executing {
+            if aborted.contains(t) {
+                let told = pending.iter().any(|(ww, ids)| ww == w && ids.contains(t)) || self.worker_cancelled.get(w).is_some_and(|s| s.contains(t));
+                if !told {
+                    self.fail("c14.abort_all", "aborted-execution-not-told-to-stop", format!("task {} was aborted (max_fails exceeded) while executing on worker {} but no CancelTasks naming it was sent there", tid(*t), w));
+                }
+            }
+        }
     }
 
     /// the `running` list of an `on_worker_lost` callback
